@@ -304,7 +304,7 @@ def work_submodule(bins, seed, idx, tmp):
 
 def run(ctx):
     quick = ctx.tier == "quick"
-    nh = 320 if quick else 4000
+    nh = 320 if quick else 12000
     jobs = []
     rng = ctx.sub_rng("sizes")
     for i in range(nh):
@@ -321,7 +321,7 @@ def run(ctx):
             ctx.refute(sig, why, case)
         if r["sample"]:
             ctx.sample(r["sample"], cap=3)
-    for r in core.pmap(work_submodule, [(ctx.bins, "%s/%d" % (ctx.prop, ctx.seed), i, ctx.tmp) for i in range(6 if quick else 30)]):
+    for r in core.pmap(work_submodule, [(ctx.bins, "%s/%d" % (ctx.prop, ctx.seed), i, ctx.tmp) for i in range(6 if quick else 60)]):
         ctx.evaluations += r["n"]
         ctx.count("submodule_observations", r["n"])
         for sig, why, case in r["bad"]:
